@@ -160,6 +160,9 @@ def verdict(pid, tier, seed, mod, results, metas, t0, problems, replay=False,
             known_seen.setdefault(k['mechanism'], [k, 0])
             known_seen[k['mechanism']][1] += 1
 
+    mech_hist = {}
+    for r in viol:
+        mech_hist[str(r.get('mechanism'))] = mech_hist.get(str(r.get('mechanism')), 0) + 1
     judged = [r for r in results if r.get('status') in ('held', 'violation')]
     sigs = set()
     for r in judged:
@@ -263,6 +266,7 @@ def verdict(pid, tier, seed, mod, results, metas, t0, problems, replay=False,
             'errors': errors,
             'skipped': skipped,
             'known_findings_seen': {k: v[1] for k, v in known_seen.items()},
+            'violation_mechanisms': mech_hist,
             'verdict': ('violated' if unknown_viol else
                         'inconclusive' if reasons else 'held'),
             'inconclusive_reasons': reasons,
@@ -285,6 +289,8 @@ def verdict(pid, tier, seed, mod, results, metas, t0, problems, replay=False,
     for mech, (k, n) in known_seen.items():
         print('KNOWN-FINDING: property=%s %s [%s, seen in %d cases]' %
               (pid, k.get('what', mech), mech, n))
+    if mech_hist:
+        print('violation mechanisms: %s' % json.dumps(mech_hist, sort_keys=True))
     if unknown_viol:
         for r in unknown_viol[:10]:
             path = replay_paths.get(r.get('idx'), args_replay_path(replay))
